@@ -34,6 +34,20 @@ fn esc(s: &str) -> String {
     s.replace('&', "&amp;").replace('<', "&lt;").replace('>', "&gt;").replace('"', "&quot;")
 }
 
+const NESTED: &str = "<entry><string>shape</string><shape><pins><entry><string>Label</string><string>WRONG</string></entry><entry><string>Bits</string><int>7</int></entry><entry><string>InDefault</string><value v=\"3\" z=\"true\"/></entry><entry><string>Testdata</string><testData><dataString>WRONG\n</dataString></testData></entry></pins></shape></entry>";
+
+/// character data as a document may hold it: escaped, and now and then with a comment or a processing instruction
+/// in it — neither is character data, so the text of the element is still `s`
+fn cdata(s: &str, r: &mut Prng) -> String {
+    if !r.chance(1, 12) {
+        return esc(s);
+    }
+    let cuts: Vec<usize> = (0..=s.len()).filter(|i| s.is_char_boundary(*i)).collect();
+    let at = cuts[r.below(cuts.len())];
+    let junk = *r.pick(&["<!-- checked by hand -->", "<!---->", "<?keep this?>", "<!-- a --><!-- b -->"]);
+    format!("{}{}{}", esc(&s[..at]), junk, esc(&s[at..]))
+}
+
 pub fn render(c: &Circuit, r: &mut Prng) -> String {
     let nl = |r: &mut Prng| if r.chance(1, 5) { "" } else { "\n      " };
     let mut s = String::from("<?xml version=\"1.0\" encoding=\"utf-8\"?>\n<circuit>\n  <version>1</version>\n  <attributes/>\n  <visualElements>\n");
@@ -62,13 +76,19 @@ pub fn render(c: &Circuit, r: &mut Prng) -> String {
             s.push_str("<elementName>Testcase</elementName>");
             s.push_str(nl(r));
             s.push_str("<elementAttributes>");
-            if let Some(l) = &t.label {
-                s.push_str(&format!("{}<entry><string>Label</string><string>{}</string></entry>", nl(r), esc(l)));
+            if r.chance(1, 12) {
+                // an attribute whose VALUE contains entries of its own: they are not attributes of the element
+                s.push_str(NESTED);
             }
+            if let Some(l) = &t.label {
+                let l = cdata(l, r);
+                s.push_str(&format!("{}<entry><string>Label</string><string>{}</string></entry>", nl(r), l));
+            }
+            let src = cdata(&t.source, r);
             s.push_str(&format!(
                 "{}<entry><string>Testdata</string><testData><dataString>{}</dataString></testData></entry>",
                 nl(r),
-                esc(&t.source)
+                src
             ));
             s.push_str(nl(r));
             s.push_str("</elementAttributes>");
@@ -79,10 +99,10 @@ pub fn render(c: &Circuit, r: &mut Prng) -> String {
             s.push_str("<elementAttributes>");
             let mut entries: Vec<String> = vec![];
             if let Some(l) = &p.label {
-                entries.push(format!("<entry><string>Label</string><string>{}</string></entry>", esc(l)));
+                entries.push(format!("<entry><string>Label</string><string>{}</string></entry>", cdata(l, r)));
             }
             if let Some(b) = &p.bits {
-                entries.push(format!("<entry><string>Bits</string><int>{}</int></entry>", esc(b)));
+                entries.push(format!("<entry><string>Bits</string><int>{}</int></entry>", cdata(b, r)));
             }
             if p.has_default {
                 let v = p.default_v.as_ref().map(|v| format!(" v=\"{}\"", esc(v))).unwrap_or_default();
@@ -91,6 +111,9 @@ pub fn render(c: &Circuit, r: &mut Prng) -> String {
             }
             if r.chance(1, 3) {
                 entries.push("<entry><string>rotation</string><rotation rotation=\"2\"/></entry>".to_string());
+            }
+            if r.chance(1, 10) {
+                entries.push(NESTED.to_string());
             }
             r.shuffle(&mut entries);
             for e in entries {
